@@ -488,7 +488,8 @@ func runHubCaseRaw(c *h.Ctx, r *h.Report, o *gen.Oracle, cs hubCase, uuidGen *co
 				impl = append(impl, "")
 			}
 		}
-		unmodelled := false // set by the "corrupt" op: what follows is judged by the oracles only
+		unmodelled := false // set when a fault was injected that the model cannot follow: the oracles go on alone
+		corrupted := false  // the newest history entry has been made undecodable
 		emit := func(line, got string) {
 			if unmodelled {
 				return
@@ -603,7 +604,21 @@ func runHubCaseRaw(c *h.Ctx, r *h.Report, o *gen.Oracle, cs hubCase, uuidGen *co
 				if op.LeidL != nil {
 					legacy = h.HexList(op.LeidL)
 				}
-				emit(h.Line(append(append([]string{"hub.sub", h.Itoa(op.Label)}, a.wire(false)...), h.HexList(op.Topics), h.Hex(op.LeidH), h.Hex(op.LeidQ), legacy)...),
+				subOp := "hub.sub"
+				if corrupted {
+					// after the fault injection a replay from 'earliest' reaches the undecodable entry: the model's
+					// operation for a registration that fails half-way; a subscription without replay is unaffected;
+					// any other replay may or may not reach the entry: not modelled
+					switch {
+					case op.LeidH == "" && op.LeidQ == "" && op.LeidL == nil:
+					case (op.LeidH == "earliest" || (op.LeidH == "" && op.LeidQ == "earliest")) && cs.Cfg.Bolt && cs.Size == 0:
+						subOp = "hub.subfail"
+						r.Count("registration failing half-way (model: connectFail)")
+					default:
+						unmodelled = true
+					}
+				}
+				emit(h.Line(append(append([]string{subOp, h.Itoa(op.Label)}, a.wire(false)...), h.HexList(op.Topics), h.Hex(op.LeidH), h.Hex(op.LeidQ), legacy)...),
 					fmt.Sprintf("%d %s leid=%s", status, h.Hex(body), leid))
 			case "disc":
 				for _, lc := range hr.conns {
@@ -650,7 +665,7 @@ func runHubCaseRaw(c *h.Ctx, r *h.Report, o *gen.Oracle, cs hubCase, uuidGen *co
 			case "corrupt":
 				if bt, ok := hr.f.tr.(*mercure.BoltTransport); ok && !hr.stopped {
 					mercure.VerifBoltCorruptLast(bt)
-					unmodelled = true
+					corrupted = true
 				}
 			case "close":
 				hr.stopped = true
